@@ -378,13 +378,7 @@ Proof.
            rewrite (proj2 (O3 c0 Hc)). simpl. exact (proj2 (Gg c0 Hc)).
     + destruct o.
       * apply apply_op_ok in H. eapply rlift2_good; eauto. intros u v. simpl. apply bvec_comm. intros; ring.
-      * (* -self + other *)
-        inv1 H. apply same_shape_ok in E. apply apply_op_ok in H.
-        destruct E as [Nm [Na Nv]]. destruct H as [Rm [Ra Rv]]. simpl in Rv.
-        eapply (rlift2_good (fun u v => bvec fadd (map fopp u) v)); eauto.
-        -- intros u v. simpl. apply bvec_rsub.
-        -- unfold res_is. rewrite Rm, Nm, Ra, Na, Rv, Nv, map_length. split; [|split]; auto.
-           apply map2_map_l.
+      * apply apply_op_ok in H. eapply rlift2_good; eauto. intros u v. simpl. symmetry. apply bvec_flip.
       * apply apply_op_ok in H. eapply rlift2_good; eauto. intros u v. simpl. apply bvec_comm. intros; ring.
       * apply apply_op_ok in H. eapply rlift2_good; eauto. intros u v. simpl. symmetry. apply bvec_flip.
       * discriminate.
